@@ -140,7 +140,7 @@ impl Mul<isize> for FreeWord {
 
 impl MulAssign<&FreeWord> for FreeWord {
     fn mul_assign(&mut self, rhs: &FreeWord) {
-        self.w = mul(&self.w, &rhs.w);
+        self.w = normalized(mul(&self.w, &rhs.w));
     }
 }
 
